@@ -15,6 +15,7 @@ DOC = {
         'C14.R2': 'write_as_text/fdupes/csv/json: count printed = g.files.len(); the listed paths iterate g.files completely (no skip/take/filter/step_by/rev)',
         'C14.R3': 'replica-count shortcuts are guarded by root_paths.is_empty() and !group_by_id (re-evaluates C06.R8)',
         'C14.R4': 'the groups passed the final ordering and the per-group path sort (re-evaluates C13.R1)',
+        'C14.R6': 'ReportWriter::write: whatever the format, on every path where all writes succeeded the output stream is flushed and the result of the flush is returned (the writer is wrapped in a BufWriter, whose drop discards the error of the final write): sibling agreement of the four format writers',
         'C14.R5': 'a length changed by the hash function reaches every path of the inode (re-evaluates C01.R6)',
     },
     'not_decided': 'numeric equality of the statistics for concrete trees; CSV/JSON escaping by the external crates',
@@ -29,6 +30,7 @@ def run(ctx):
     r1(ctx)
     r2(ctx)
     r345(ctx)
+    r6(ctx)
     from .common import run_mandatory
     run_mandatory(ctx, 'C14')
 
@@ -169,3 +171,37 @@ def r345(ctx):
     ctx.rules_run.add('C14.R4')
     c01.r6(ctx, 'C14.R5')
     ctx.rules_run.add('C14.R5')
+
+
+def r6(ctx):
+    rule = 'C14.R6'
+    from .common import flushed_on_success
+    lib = ctx.lib
+    b = ctx.need_body(rule, 'report::ReportWriter::<W>::write')
+    if b is None:
+        return
+    fmts = b.calls(r'report::ReportWriter::<W>::write_as_\w+$')
+    if not ctx.floor(rule, 'format writers dispatched by ReportWriter::write', len(fmts), 4, b.where()):
+        return
+    ok, w = flushed_on_success(b)
+    if ok:
+        ctx.ok(rule, b.path + '|flush', b.where(), 'every format: %s' % w)
+    else:
+        per = []
+        for c in fmts:
+            cb = lib.body(c.path)
+            o, ww = flushed_on_success(cb) if cb is not None else (False, 'no body')
+            per.append((c, o, ww))
+        for c, o, ww in per:
+            ctx.check(o, rule, '%s|flush|%s' % (b.path, c.path.rsplit('::', 1)[-1]), c.where(), '%s flushes and returns the result' % c.path.rsplit('::', 1)[-1],
+                      '%s: %s; the report goes through a BufWriter (group::write_report), so an error of the last buffered write (disk full, quota, EIO) is discarded when the BufWriter is dropped: the run ends successfully with a truncated report - the sibling writers %s do flush' % (
+                          c.path.rsplit('::', 1)[-1], ww, [x.path.rsplit('::', 1)[-1] for x, oo, _ in per if oo]))
+    from .common import buffered_drop_discipline
+    bodies = [x for x in lib.bodies.values() if x.file.endswith(('group.rs', 'report.rs')) and not re.search(r'(^|::)tests?(::|$)', x.path)]
+    n = buffered_drop_discipline(ctx, rule, bodies)
+    ctx.floor(rule, 'buffered report streams dropped in group.rs/report.rs', n, 2, b.where())
+    # the stream handed to ReportWriter is indeed buffered
+    wr = lib.body('group::write_report_with_timestamp') or lib.body('group::write_report')
+    if wr is not None:
+        n = len(wr.calls(r'BufWriter(::)?<.*>::new$'))
+        ctx.note(rule, wr.where(), 'write_report wraps %d output stream(s) in BufWriter' % n)
